@@ -561,3 +561,156 @@ mod c09 {
         kani::cover!(res.is_ok(), "accepted");
     }
 }
+
+mod c15 {
+    use super::*;
+
+    fn any_retrans_entry() -> RetransEntry {
+        let e = RetransEntry {
+            base_delay_interval_ms: kani::any(),
+            msg_ctr: kani::any(),
+            counter: kani::any(),
+        };
+        // Representation invariant: `new` never stores a zero interval, `pre_send` stops at the maximum.
+        kani::assume(e.base_delay_interval_ms > 0 && e.counter <= MRP_MAX_TRANSMISSIONS);
+        e
+    }
+
+    fn any_proto_hdr() -> ProtoHdr {
+        let mut p = ProtoHdr::new();
+        p.exch_id = kani::any();
+        p.proto_id = kani::any();
+        p.proto_opcode = kani::any();
+        if kani::any() {
+            p.set_reliable();
+        }
+        if kani::any() {
+            p.set_initiator();
+        }
+        p.set_ack(kani::any());
+        p.set_vendor(kani::any());
+        p
+    }
+
+    // TIER: quick
+    // KIND: complete
+    #[kani::proof]
+    fn c15_retrans_entry_new_remembers_counter() {
+        let base: Option<u32> = kani::any();
+        let ctr: u32 = kani::any();
+        let e = RetransEntry::new(base, ctr);
+        kani::assert(e.get_msg_ctr() == ctr, "C15.retrans_entry.new_remembers_given_counter");
+        kani::assert(e.msg_ctr == ctr, "C15.retrans_entry.get_msg_ctr_is_the_stored_counter");
+        kani::assert(e.counter == 0, "C15.retrans_entry.new_has_no_transmissions");
+        kani::assert(e.base_delay_interval_ms > 0, "C15.retrans_entry.new_interval_positive");
+        kani::cover!(base == Some(0), "zero interval replaced");
+    }
+
+    // TIER: quick
+    // KIND: complete
+    #[kani::proof]
+    fn c15_retrans_entry_pre_send_keeps_counter() {
+        let mut e = any_retrans_entry();
+        let (old_ctr, old_n, old_base) = (e.msg_ctr, e.counter, e.base_delay_interval_ms);
+        kani::assert(e.get_msg_ctr() == old_ctr, "C15.retrans_entry.get_msg_ctr_reads_stored_counter");
+
+        // Precondition from the call site (`Session::pre_send` stamps the stored counter, see
+        // C15.pre_send.retrans_stamps_stored_counter): the transmitted counter is the remembered one.
+        let r = e.pre_send(old_ctr);
+
+        kani::assert(e.msg_ctr == old_ctr, "C15.retrans_entry.pre_send_keeps_counter");
+        kani::assert(e.base_delay_interval_ms == old_base, "C15.retrans_entry.pre_send_keeps_interval");
+        kani::assert(r.is_ok() == (old_n < MRP_MAX_TRANSMISSIONS), "C15.retrans_entry.gives_up_exactly_at_max_transmissions");
+        kani::assert(e.counter == if r.is_ok() { old_n + 1 } else { old_n }, "C15.retrans_entry.counts_transmissions");
+        kani::assert(e.counter <= MRP_MAX_TRANSMISSIONS, "C15.retrans_entry.invariant_preserved");
+        kani::cover!(r.is_err(), "gives up");
+        kani::cover!(r.is_ok() && old_n == MRP_MAX_TRANSMISSIONS - 1, "last allowed transmission");
+    }
+
+    /// `ReliableMessage::pre_send`: what is remembered for retransmission is the counter stamped on the
+    /// plain header, and it never changes while the entry lives; a pending acknowledgement is stamped
+    /// with the counter of its `AckEntry`, which never changes either.
+    // TIER: quick
+    // KIND: complete
+    #[kani::proof]
+    fn c15_reliable_message_pre_send() {
+        let mut m = ReliableMessage {
+            retrans: if kani::any() { Some(any_retrans_entry()) } else { None },
+            ack: if kani::any() {
+                Some(AckEntry {
+                    msg_ctr: kani::any(),
+                    acknowledged: kani::any(),
+                })
+            } else {
+                None
+            },
+            received_at: if kani::any() {
+                Some(Instant::from_ticks(kani::any()))
+            } else {
+                None
+            },
+        };
+        let mut plain = PlainHdr::new();
+        plain.ctr = kani::any();
+        plain.sess_id = kani::any();
+        let mut proto = any_proto_hdr();
+
+        let old_retrans = m.retrans.as_ref().map(|e| (e.msg_ctr, e.counter));
+        let old_ack = m.ack.as_ref().map(|a| a.msg_ctr);
+        let old_hdr_ack = proto.get_ack();
+        // Precondition from the call site: a retransmission is stamped with the remembered counter.
+        if let Some((c, _)) = old_retrans {
+            kani::assume(plain.ctr == c);
+        }
+        let reliable = proto.is_reliable();
+
+        let r = m.pre_send(&plain, &mut proto, kani::any(), kani::any());
+
+        let new_retrans = m.retrans.as_ref().map(|e| (e.msg_ctr, e.counter));
+        match (old_retrans, r.is_ok()) {
+            (None, ok) => {
+                kani::assert(ok, "C15.mrp.fresh_never_fails");
+                kani::assert(
+                    new_retrans == if reliable { Some((plain.ctr, 0)) } else { None },
+                    "C15.mrp.fresh_reliable_remembers_stamped_counter",
+                );
+            }
+            (Some((c, n)), true) => {
+                kani::assert(
+                    new_retrans == Some((c, if reliable { n + 1 } else { n })),
+                    "C15.mrp.retrans_keeps_remembered_counter",
+                );
+            }
+            (Some((_, n)), false) => {
+                kani::assert(reliable && n == MRP_MAX_TRANSMISSIONS, "C15.mrp.gives_up_only_after_max_transmissions");
+                kani::assert(m.retrans.is_none() && m.ack.is_none(), "C15.mrp.give_up_clears_pending_state");
+                kani::assert(
+                    matches!(r.as_ref().map_err(Error::code), Err(ErrorCode::TxTimeout)),
+                    "C15.mrp.give_up_is_reported",
+                );
+            }
+        }
+        // piggy-backed acknowledgement
+        match old_ack {
+            Some(a) => {
+                kani::assert(proto.get_ack() == Some(a), "C15.mrp.ack_stamped_with_ack_entry_counter");
+                if r.is_ok() {
+                    kani::assert(
+                        matches!(m.ack.as_ref(), Some(e) if e.msg_ctr == a && e.acknowledged),
+                        "C15.mrp.ack_entry_keeps_counter",
+                    );
+                }
+            }
+            None => {
+                kani::assert(proto.get_ack() == old_hdr_ack, "C15.mrp.no_ack_entry_leaves_header_ack");
+                kani::assert(m.ack.is_none(), "C15.mrp.no_ack_entry_created_by_sending");
+            }
+        }
+        kani::assert(proto.is_reliable() == reliable, "C15.mrp.reliability_flag_untouched");
+
+        kani::cover!(old_retrans.is_none() && reliable, "fresh reliable");
+        kani::cover!(old_retrans.is_some() && r.is_ok() && reliable, "retransmission");
+        kani::cover!(r.is_err(), "give up");
+        kani::cover!(old_ack.is_some() && r.is_ok(), "piggy-backed ack");
+    }
+}
